@@ -30,7 +30,8 @@ func VerifH01RunCountRange() {
 	verifAssume(verifValidRuns(runs))
 	c := NewContainerRun(runs)
 	start, end := verifI32("start"), verifI32("end")
-	verifAssume(verifAnd(0 <= start, verifAnd(start <= end, end <= 65536)))
+	// callers (Bitmap.CountRange) pass start = lowbits(x) <= 65535
+	verifAssume(verifAnd(verifAnd(0 <= start, start <= 65535), verifAnd(start <= end, end <= 65536)))
 	got := c.countRange(start, end)
 	var want int32
 	for i := range runs {
@@ -53,7 +54,8 @@ func VerifH01ArrayCountRange() {
 	verifAssume(ok)
 	c := NewContainerArray(a)
 	start, end := verifI32("start"), verifI32("end")
-	verifAssume(verifAnd(0 <= start, verifAnd(start <= end, end <= 65536)))
+	// callers (Bitmap.CountRange) pass start = lowbits(x) <= 65535
+	verifAssume(verifAnd(verifAnd(0 <= start, start <= 65535), verifAnd(start <= end, end <= 65536)))
 	got := c.countRange(start, end)
 	var want int32
 	for i := range a {
